@@ -12,6 +12,7 @@ def _(c):
     type_bads_state(c)
     inv_bads(c)
     c.ints("ghost.n_calls")
+    c.empty_reduce_checks = True  # C09: np.argmin over an empty poll set is an internal ValueError
     c.arr("self.function_logger.X_flag", 1, [None], "bool")
     c.arr("u_poll", 2, [None, "self.D"], nonnull=False)
     c.arr("B", 2, [None, "self.D"], nonnull=False)
